@@ -285,6 +285,74 @@ def confirm(ctx, cases, recs, bad, prefixes, rerun):
     # above and counted in the evidence, and the check goes on.
 
 
+def apalache_order(ctx, n, cap, init, inv, length, expect, timeout=1500):
+    """One Apalache run over spec/PbfOrderInd.tla (EXTENDS PbfOrderCore) with N = n, Cap = cap (constants from a generated .cfg).
+    expect = "NoError" (obligation discharged) or "Error" (a canary that must be refuted).  Anything else is exit 2."""
+    import shutil, time
+    wd = os.path.join(ctx.scratch, "apa-%d-%d-%s" % (n, cap, inv))
+    os.makedirs(os.path.join(wd, "tmp"), exist_ok=True)
+    for f in ("PbfOrderCore.tla", "PbfOrderInd.tla"):
+        shutil.copy(os.path.join(vlib.SPEC, f), wd)
+    open(os.path.join(wd, "run.cfg"), "w").write("CONSTANTS\n  N = %d\n  Cap = %d\nINIT %s\nNEXT Next\nINVARIANT %s\n" % (n, cap, init, inv))
+    env = dict(os.environ)
+    env.pop("JAVA_TOOL_OPTIONS", None)
+    env.update(JVM_ARGS="-Xmx3g", TMPDIR=os.path.join(wd, "tmp"))
+    cmd = ["apalache-mc", "check", "--config=run.cfg", "--length=%d" % length, "--out-dir=" + os.path.join(wd, "out"), "PbfOrderInd.tla"]
+    t0 = time.time()
+    try:
+        r = subprocess.run(cmd, cwd=wd, env=env, capture_output=True, text=True, timeout=timeout)
+    except subprocess.TimeoutExpired:
+        raise vlib.Infra("apalache PbfOrderInd N=%d Cap=%d %s/%s timed out after %ss" % (n, cap, init, inv, timeout))
+    out = r.stdout + r.stderr
+    m = re.search(r"The outcome is: (\w+)", out)
+    got = m.group(1) if m else "none(rc=%d)" % r.returncode
+    shutil.rmtree(wd, ignore_errors=True)
+    if got != expect:
+        raise vlib.Infra("apalache PbfOrderInd N=%d Cap=%d --init=%s --inv=%s --length=%d: outcome %s, expected %s\n%s" % (
+            n, cap, init, inv, length, got, expect, out[-2500:]))
+    return {"N": n, "Cap": cap, "init": init, "inv": inv, "length": length, "outcome": got, "wall_s": round(time.time() - t0, 1)}
+
+
+def order_induction(ctx, pairs):
+    """C02 design level, unbounded file length: for each (decoders, capacity) the base and step obligations of the inductive
+    invariant of PbfOrderInd.tla, plus two canaries (the weakened invariant is not inductive; an emission is reachable)."""
+    jobs = []
+    for n, cap in pairs:
+        jobs.append((n, cap, "Init", "IndInv", 0, "NoError"))
+        jobs.append((n, cap, "IndInit", "IndInv", 1, "NoError"))
+    n0, c0 = pairs[0]
+    jobs.append((n0, c0, "WeakInit", "WeakInv", 1, "Error"))
+    jobs.append((n0, c0, "Init", "NothingEmitted", 6, "Error"))
+    with cf.ThreadPoolExecutor(max_workers=8) as ex:
+        res = list(ex.map(lambda j: apalache_order(ctx, *j), jobs))
+    ctx.extra["order_induction"] = {"module": "PbfOrderInd.tla", "tool": "Apalache 0.58.0", "runs": res,
+                                    "meaning": "Init => IndInv and IndInv /\\ Next => IndInv' for the listed (N, Cap): OrderInv for files of any length"}
+
+
+def order_refinement(ctx, pairs):
+    """PbfPipeline refines PbfOrderCore (spec/PbfOrderRefine.tla) for the listed (N, Cap): TLC, exhaustive per configuration;
+    the mapped IndInv is an invariant of the Model; a deliberately wrong mapping must be refuted."""
+    def one(c):
+        return c, vlib.tlc("PbfOrderRefine", c, ctx.scratch, workers=2, timeout=2400)
+    cfgs = ["PbfOrderRefine_%d_%d.cfg" % p for p in pairs] + ["PbfOrderRefine_canary.cfg"]
+    with cf.ThreadPoolExecutor(max_workers=6) as ex:
+        res = list(ex.map(one, cfgs))
+    runs = []
+    for c, r in res:
+        if c.endswith("canary.cfg"):
+            if r.rc != 13:
+                raise vlib.Infra("PbfOrderRefine canary: the wrong mapping was not refuted (rc=%s)\n%s" % (r.rc, r.out[-2000:]))
+            continue
+        if r.rc != 0 or r.distinct < 100:
+            raise vlib.Infra("PbfPipeline does not refine PbfOrderCore under %s (rc=%s, %s):\n%s" % (c, r.rc, r.violation, r.out[-3000:]))
+        ctx.states += r.distinct
+        ctx.transitions += r.generated
+        ctx.tlc_runs.append({"module": "PbfOrderRefine", "cfg": c, "distinct": r.distinct, "generated": r.generated, "wall_s": round(r.wall, 1), "rc": r.rc})
+        runs.append(c)
+    ctx.extra["order_refinement"] = {"module": "PbfOrderRefine.tla", "configs": runs, "canary_refuted": True,
+                                     "meaning": "every step of PbfPipeline (unstopped scans) is a step of PbfOrderCore or a stutter; mapped IndInv invariant"}
+
+
 def model_check(ctx, cfgs):
     for c in cfgs:
         vlib.tlc_model_check(ctx, MC, c, timeout=3000)
